@@ -190,6 +190,8 @@ class Executor:
         self.consts: dict[str, object] = {}
         self.dropped: set = set()
         self.def_ids: set = set()
+        self.divmods: dict = {}
+        self.hint_ids: set = set()
         self._number_loops(fn_node)
 
     def _number_loops(self, node):
@@ -312,8 +314,16 @@ class Executor:
 
     def divmod_(self, a, b, st, what):
         self.vc(st, "safety", f"safety.div#{what}", b != 0, "divisor != 0")
+        key = (a.get_id(), b.get_id())
+        if key in self.divmods:          # one quotient/remainder pair per (dividend, divisor) term: n % s and n // s share it
+            q, r, fact = self.divmods[key]
+            if not any(f.get_id() == fact.get_id() for f in st.pc):
+                st.pc.append(fact)
+            return q, r
         q, r = fresh("q", z3.IntSort()), fresh("r", z3.IntSort())
+        self.divmods[key] = (q, r, None)
         self.define(st, z3.Implies(b != 0, z3.And(a == b * q + r, z3.Implies(b > 0, z3.And(0 <= r, r < b)), z3.Implies(b < 0, z3.And(b < r, r <= 0)))))
+        self.divmods[key] = (q, r, st.pc[-1])
         return q, r
 
     def const_obj(self, text):
@@ -661,6 +671,14 @@ class Executor:
         if name == "old" and len(a) == 1:
             sub = State()
             sub.env = dict(st.old)
+            sub.pc = st.pc
+            sub.old = st.old
+            return self.ev(a[0], sub, True)
+        if name == "pre" and len(a) == 1:
+            if "§iter" not in st.env:
+                raise OutOfSubset("pre() outside a loop body")
+            sub = State()
+            sub.env = dict(st.env["§iter"].items)
             sub.pc = st.pc
             sub.old = st.old
             return self.ev(a[0], sub, True)
@@ -1016,6 +1034,9 @@ class Executor:
             dec0 = auto_dec(b)
         else:
             raise OutOfSubset(f"while loop {k} needs a decreases clause")
+        snap = TupleV([])
+        snap.items = dict(b.env)          # environment at the start of the iteration, for pre(...)
+        b.env["§iter"] = snap
         self.run_ghost(spec.get("ghost_update", []), b)
         outs = self.exec_block(body, b)
         results = []
@@ -1024,6 +1045,11 @@ class Executor:
                 self.run_ghost(spec.get("ghost_end", []), sx)
                 if step is not None:
                     step(sx)
+                for hn, hint in enumerate(spec.get("hints", [])):      # intermediate lemmas: proved, then assumed
+                    hg = self.truth(self.ev(_parse(hint), sx, True), sx)
+                    self.vc(sx, "hint", f"loop{k}.hint#{hn}", hg, hint)
+                    sx.pc.append(hg)
+                    self.hint_ids.add(hg.get_id())
                 self.check_invs(sx, spec, k, "preserve")
                 if auto_inv is not None:
                     self.vc(sx, "inv.preserve", f"loop{k}.inv.preserve#auto", auto_inv(sx), "0 <= index <= count")
@@ -1270,7 +1296,17 @@ def verify(contract: dict, all_contracts: dict | None = None, ms: int = 10_000, 
     for vc in vcs:
         hyps = vc.hyps
         ax = spec_axioms(hyps + [vc.goal])
-        verdict, m, dt, be = prove(hyps + ax, vc.goal, ms if vc.kind != "reach" else min(ms, 2000))
+        if vc.kind == "reach":
+            verdict, m, dt, be = prove(hyps + ax, vc.goal, min(ms, 2000))
+        else:
+            # attempt 1 without the hint lemmas (dropping hypotheses is sound and keeps the query small), attempt 2 with them
+            lean = [h for h in hyps if h.get_id() not in ex.hint_ids]
+            verdict, m, dt, be = ("undecided", None, 0.0, "z3")
+            if len(lean) != len(hyps):
+                verdict, m, dt, be = prove(lean + spec_axioms(lean + [vc.goal]), vc.goal, max(ms // 4, 1000), use_cvc5=False)
+            if verdict != "proved":
+                v2, m, dt2, be = prove(hyps + ax, vc.goal, ms)
+                verdict, dt = v2, dt + dt2
         if vc.kind == "reach":
             # proved False => vacuous path: report as undecided (never a pass); anything else is the expected outcome
             verdict = "undecided" if verdict == "proved" else "proved"
